@@ -173,9 +173,9 @@ def prepare(pid, thorough=False):
             write_if_changed(LEAN / 'WnVerif' / f'Axioms{pid}.lean', ax)
             rc2, out2 = _run(['lake', 'env', 'lean', f'WnVerif/Axioms{pid}.lean'])
             got = {}
-            for m in re.finditer(r"'([^']+)' depends on axioms: \[([^\]]*)\]", out2.replace('\n', ' ')):
+            for m in re.finditer(r"'(\S+)' depends on axioms: \[([^\]]*)\]", out2.replace('\n', ' ')):
                 got[m.group(1)] = [a.strip() for a in m.group(2).split(',') if a.strip()]
-            for m in re.finditer(r"'([^']+)' does not depend on any axioms", out2):
+            for m in re.finditer(r"'(\S+)' does not depend on any axioms", out2):
                 got[m.group(1)] = []
             for full in names:
                 if full not in got:
